@@ -91,9 +91,60 @@ contains
   end subroutine second_sub
 end module alib2
 """,
+    # a third module whose public names repeat those of the first: two entities of one kind and name in one library
+    "src/alib3.f90": """module alib3
+  !! third library module
+  implicit none
+  type shape_t
+    !! another shape_t of alib3
+    integer :: comp3
+  end type shape_t
+contains
+  subroutine asub(y)
+    !! another asub of alib3
+    real :: y
+  end subroutine asub
+end module alib3
+""",
 }
 A_PUBLIC = {"alib": {"pub_procs": {"asub", "afun", "agen", "area"}, "pub_types": {"shape_t"}, "pub_vars": {"avar"}, "pub_absints": {"aabs"}},
-            "alib2": {"pub_procs": {"asub", "afun", "agen", "area", "second_sub"}, "pub_types": {"shape_t"}, "pub_vars": {"avar", "second_var"}, "pub_absints": {"aabs"}}}
+            "alib2": {"pub_procs": {"asub", "afun", "agen", "area", "second_sub"}, "pub_types": {"shape_t"}, "pub_vars": {"avar", "second_var"}, "pub_absints": {"aabs"}},
+            "alib3": {"pub_procs": {"asub"}, "pub_types": {"shape_t"}, "pub_vars": set(), "pub_absints": set()}}
+# text found only on the page of A that documents (module, entity)
+A_MARK = {("alib", "shape_t"): "public type", ("alib3", "shape_t"): "another shape_t of alib3", ("alib", "asub"): "public subroutine", ("alib3", "asub"): "another asub of alib3"}
+
+B3_SRC = """module bmod3
+  !! B's second module uses the third library module {refs3}
+  use alib3
+  implicit none
+  type(shape_t) :: holder3
+  !! variable of the other external type
+contains
+  subroutine bsub3()
+    !! calls the other asub
+    call asub(1.0)
+  end subroutine bsub3
+end module bmod3
+module bmod4
+  !! interface bodies that import from the library themselves
+  implicit none
+  interface
+    subroutine cb(s)
+      !! explicit interface
+      use alib, only: shape_t
+      type(shape_t) :: s
+    end subroutine cb
+  end interface
+  interface gcb
+    !! generic made of a body
+    subroutine cb2(s)
+      !! body in a generic
+      use alib
+      type(shape_t) :: s
+    end subroutine cb2
+  end interface gcb
+end module bmod4
+"""
 
 B_SRC = """module bmod
   !! B uses the external library
@@ -269,6 +320,8 @@ def run_history(st: Stats, case):
         stub_urlopen(a_out)
         reftext = {"none": "", "plain": "see [[alib]] and QR1 [[shape_t]] QE and QR2 [[asub]] QE", "ext": "see [[alib(extmodule)]] and [[shape_t(exttype)]] and [[asub(extproc)]]"}[refs]
         b_files = {"src/bmod.f90": B_SRC.format(usemod="alib", refs=reftext)}
+        reftext3 = {"none": "", "plain": "", "ext": "see [[alib3(extmodule)]]"}[refs]
+        b_files["src/bmod3.f90"] = B3_SRC.format(refs3=reftext3)
         if clash:
             b_files["src/own.f90"] = CLASH_SRC[clash]
         externals = {"alib": ext, "alib_again": ext} if hist == "two-names" else {"alib": ext}
@@ -298,6 +351,7 @@ def run_history(st: Stats, case):
         # B's own pages: what is linked locally
         local_mod = "module/alib.html" in site.pages
         linked_names = set()
+        linked_alib = set()  # ... of which entities of the module alib itself (alib3 repeats two of its names)
         seen_problem = set()
         for (page, url) in hrefs:
             t = a_target(url, form, a_out)
@@ -306,6 +360,8 @@ def run_history(st: Stats, case):
             f, frag = t
             name = Path(f).stem.split("~")[0]
             linked_names.add(name)
+            if Path(f).exists() and (("alib", name) not in A_MARK or A_MARK[("alib", name)] in Path(f).read_text(errors="replace")):
+                linked_alib.add(name)
             prob = None
             if not Path(f).exists():
                 prob = "target does not exist in A's documentation"
@@ -319,6 +375,26 @@ def run_history(st: Stats, case):
                 seen_problem.add((prob, name))
                 bad += 1
                 st.violation("external-link-does-not-resolve-in-A", stratum, dict(feats, entity=name, problem=prob.split(" ")[0]), inp, dict(page=page, href=url, problem=prob), "a page of A documenting the entity")
+        if damage is None:
+            # which of A's same-named entities a page of B links to: the one of the module that page's scope uses
+            WANT = {"module/bmod3.html": ("alib3", "shape_t"), "module/bmod.html": ("alib", "shape_t"), "interface/cb.html": ("alib", "shape_t"), "interface/gcb.html": ("alib", "shape_t")}
+            if clash == "module":
+                WANT = {"module/bmod3.html": ("alib3", "shape_t")}
+            got_pages = {}
+            for (page, url) in hrefs:
+                t = a_target(url, form, a_out)
+                if t is None or page not in WANT or Path(t[0]).stem.split("~")[0] != WANT[page][1] or not Path(t[0]).exists():
+                    continue
+                got_pages.setdefault(page, set()).add(Path(t[0]))
+            for page, key in WANT.items():
+                if page not in site.pages:
+                    continue
+                tgts = got_pages.get(page, set())
+                wrong = sorted(str(f.relative_to(a_out)) for f in tgts if A_MARK[key] not in f.read_text(errors="replace"))
+                if wrong or not tgts:
+                    bad += 1
+                    st.violation("external-entity-of-wrong-module" if wrong else "external-entity-not-linked", stratum, dict(feats, entity=key[1], page=page, module=key[0]), inp,
+                                 dict(page=page, links_to=wrong or "nothing in A"), f"the page of {key[0]}'s {key[1]}")
         if damage is None and not clash:
             expect = ["alib", "shape_t"] + (["asub"] if refs != "none" else [])  # calls are only shown in graphs
             missing = [n for n in expect if n not in linked_names]
@@ -342,7 +418,7 @@ def run_history(st: Stats, case):
                         break
         if clash == "module":
             # B's own module alib must win: the Uses link and the type/procedure links stay inside B
-            leaked = sorted(n for n in linked_names if n in ("alib", "shape_t", "asub", "afun", "agen"))
+            leaked = sorted(n for n in linked_alib if n in ("alib", "shape_t", "asub", "afun", "agen"))
             if leaked or not local_mod:
                 bad += 1
                 st.violation("external-entity-wins-over-local", stratum, dict(feats, entity=(leaked or ["alib"])[0]), inp, dict(external_links=leaked, local_module_page=local_mod), "B's own entities take precedence")
